@@ -510,6 +510,9 @@ func (vc *VC) typeFacts(s *State, t types.Type, e Term, depth int) Term {
 	if isVerifInt(t) {
 		return "true"
 	}
+	if n, ok := types.Unalias(t).(*types.Named); ok && n.Obj().Name() == "verifBytes" {
+		return "true" // an abstract byte sequence (sort Bytes), not the Go struct that stands for it in the prelude
+	}
 	switch u := t.Underlying().(type) {
 	case *types.Basic:
 		if u.Info()&types.IsInteger != 0 {
